@@ -396,6 +396,15 @@ def generate():
         out.append(f"def recvSetLenAfter (wp r ep : Nat) : Nat := {forms[arg]}")
         m2 = re.search(r'assert!\(end_pos\s*<=\s*main_data_buffer\.capacity\(\)\);\s*main_data_buffer\.set_len\(end_pos\);', recv)
         out.append(f"def shape_recvSetLenBeforeRead : Bool := {'true' if m2 else 'false'}  -- set_len(end_pos) guarded by the capacity assert")
+        # attachments (C12 / C04 / C15): the vectors are created when `recv` is entered, filled from the control message of the
+        # first packet only, and a truncated message is discarded by dropping them and starting over
+        rflat = re.sub(r'\s+', '', recv)
+        fresh = rflat.startswith('let(mutchannels,mutshared_memory_regions)=(Vec::new(),Vec::new());')
+        pushes = len(re.findall(r'channels\.push\(', rflat)) == 1 and len(re.findall(r'shared_memory_regions\.push\(', rflat)) == 1
+        cm = 'letmutcmsg=UnixCmsg::new(&mutiovec)?;letbytes_read=cmsg.recv(fd,blocking_mode)?;' in rflat
+        out.append(f"def shape_recvFreshVectors : Bool := {'true' if fresh and pushes and cm else 'false'}  -- vectors and control buffer created per call, filled once")
+        disc = 'cmp::Ordering::Equal=>{drop(dedicated_rx);drop(channels);drop(shared_memory_regions);returnrecv(fd,blocking_mode);},' in rflat
+        out.append(f"def shape_recvDiscardRestarts : Bool := {'true' if disc else 'false'}  -- truncated: drop everything collected, then receive afresh")
         # truncated message handling: legacy returns ChannelClosed; repaired code receives the next message
         m = re.search(r'cmp::Ordering::Equal\s*=>\s*return\s+Err\(UnixError::ChannelClosed\)', recv)
         out.append(f"def recvTruncatedIsClosed : Bool := {'true' if m else 'false'}")
